@@ -37,8 +37,8 @@ for t in $targets; do
   case "$t" in
     vsim) go build -overlay="$OV" -o "$VERIF/bin/vsim" ./internal/vsim/cmd/vsim ;;
     race) go build -race -overlay="$OV" -o "$VERIF/bin/vsim-race" ./internal/vsim/cmd/vsim ;;
-    crop) go test -c -overlay="$OV" -o "$VERIF/bin/crop.test" ./cmd/mp4ff-crop ;;
-    segmenter) go test -c -overlay="$OV" -o "$VERIF/bin/segmenter.test" ./examples/segmenter ;;
+    crop) go test -c -vet=off -overlay="$OV" -o "$VERIF/bin/crop.test" ./cmd/mp4ff-crop ;;
+    segmenter) go test -c -vet=off -overlay="$OV" -o "$VERIF/bin/segmenter.test" ./examples/segmenter ;;
     *) echo "unknown build target $t" >&2; exit 2 ;;
   esac
 done
